@@ -45,9 +45,12 @@ VARIABLES fmt, h, pos, off, act
 vars == <<fmt, h, pos, off>>
 
 Rec(tag, fs) == [tag |-> tag, fs |-> fs]
-Hd(p, v) == [p |-> p, k |-> "int", sh |-> <<>>, w |-> 0, dom |-> "fix", v |-> v]
-Hb(p, v) == [p |-> p, k |-> "bool", sh |-> <<>>, w |-> 0, dom |-> "fix", v |-> v]
-Dt(p, k, sh, w, dom) == [p |-> p, k |-> k, sh |-> sh, w |-> w, dom |-> dom, v |-> 0]
+\* manifest entries; n = number of scalars the entry contributes to the file
+Hd(p, v) == [p |-> p, k |-> "int", sh |-> <<>>, w |-> 0, dom |-> "fix", v |-> v, n |-> 1]
+Hb(p, v) == [p |-> p, k |-> "bool", sh |-> <<>>, w |-> 0, dom |-> "fix", v |-> v, n |-> 1]
+Dt(p, k, sh, w, dom) == [p |-> p, k |-> k, sh |-> sh, w |-> w, dom |-> dom, v |-> 0, n |-> Prod(sh)]
+\* sparse matrix whose stored (in-band) positions are nz (0-based <<row, col>>); k = "sparse" (float) | "sparse8" (double)
+Sp(p, k, sh, nz, lit) == [p |-> p, k |-> k, sh |-> sh, w |-> 0, dom |-> lit, v |-> 0, n |-> Len(nz)]
 Max2(a, b) == IF a > b THEN a ELSE b
 Min2(a, b) == IF a < b THEN a ELSE b
 Pad2(i) == IF i < 10 THEN "0" \o ToString(i) ELSE ToString(i)
@@ -62,8 +65,11 @@ BlkX(nj, nb)     == (nj - 1) \div nb + 1
 BlkLo(m, nj, nb) == (m - 1) * BlkX(nj, nb) + 1
 BlkHi(m, nj, nb) == Min2(nj, m * BlkX(nj, nb))
 BlkN(m, nj, nb)  == Max2(0, BlkHi(m, nj, nb) - BlkLo(m, nj, nb) + 1)
-JBlk == IF Wide THEN {<<1, 1>>, <<2, 1>>, <<2, 2>>, <<3, 1>>, <<3, 2>>, <<3, 3>>, <<4, 3>>, <<5, 2>>, <<5, 4>>}
-        ELSE {<<1, 1>>, <<2, 2>>, <<3, 1>>, <<3, 2>>, <<4, 3>>}      \* <<NINTJ, NBLOK>>; <<4,3>> has an empty third block
+\* well-formed blocking: no block starts beyond NINTJ + 1 (a block may be empty, it cannot have a negative extent)
+BlkOK(nj, nb)    == (nb - 1) * BlkX(nj, nb) <= nj
+JBlk == {jb \in (IF Wide THEN {<<1, 1>>, <<2, 1>>, <<2, 2>>, <<3, 1>>, <<3, 2>>, <<3, 3>>, <<4, 3>>, <<5, 2>>, <<5, 3>>, <<6, 4>>}
+                  ELSE {<<1, 1>>, <<2, 2>>, <<3, 1>>, <<3, 2>>, <<4, 3>>}) : BlkOK(jb[1], jb[2])}
+        \* <<NINTJ, NBLOK>>; <<4,3>> and <<6,4>> end with an empty block
 
 (* ================================================ GEODST ================================================ *)
 GeoKeys == <<"IGOM", "NZONE", "NREG", "NZCL", "NCINTI", "NCINTJ", "NCINTK", "NINTI", "NINTJ", "NINTK", "IMB1", "IMB2",
@@ -292,3 +298,289 @@ FixRecords(hh) ==
 FixCount(hh) == [FILEID |-> 1, 1D |-> 1, 3D |-> hh.ng * hh.nz]
 FixManifest(hh) == <<Dt("d:fixSrc", "double", <<hh.ni, hh.nj, hh.nz, hh.ng>>, 0, "real")>>
 FixConstBytes == 24 + 4 + 13 * 4
+
+(* ================================================ ISOTXS / GAMISO ======================================= *)
+Join(s) == IF s = <<>> THEN "" ELSE FoldLeft(LAMBDA a, x : a \o "," \o ToString(x), ToString(s[1]), Tail(s))
+Lit(s)  == "=" \o Join(s)                         \* literal values (file order) the generator must use for an entry
+\* scatter band of block n at (1-based) sink group G:  JBAND = stored source groups, JJ = position of the in-group term
+IsoJJ(band, G, ng)    == IF band = "up" /\ G < ng THEN 2 ELSE 1
+IsoJBand(band, G, ng) == CASE band = "diag"  -> 1
+                           [] band = "lower" -> G
+                           [] band = "up"    -> IsoJJ(band, G, ng) + (IF G > 1 THEN 1 ELSE 0)
+\* stored columns (1-based source groups) of row G:  G + JJ - JBAND .. G + JJ - 1   (isotxs.py _rw7DRecord: jdown..jup-1)
+IsoCols(band, G, ng)  == (G + IsoJJ(band, G, ng) - IsoJBand(band, G, ng))..(G + IsoJJ(band, G, ng) - 1)
+IsoVariants == [A |-> [opt |-> {}, ltrn |-> 1, ltot |-> 1, strpd |-> 0, band |-> "diag"],
+                B |-> [opt |-> {"nalph", "np", "n2n", "nd", "nt"}, ltrn |-> 2, ltot |-> 2, strpd |-> 1, band |-> "lower"],
+                C |-> [opt |-> {"n2n"}, ltrn |-> 1, ltot |-> 2, strpd |-> 0, band |-> "up"]]
+IsoOrds(nsb) == IF nsb = 1 THEN {<<1>>, <<0>>} ELSE {<<1, 1>>, <<1, 0>>, <<0, 1>>}
+IsoHdrG(gam) == {hh \in [gam : {gam}, ng : IF Wide THEN 1..3 ELSE {1, 3}, nNuc : 1..2, fw : 0..1, nsb : 1..2, ords : IsoOrds(1) \cup IsoOrds(2),
+                         nsblok : 1..2, fis : 0..1, chi : 0..1, var : {"A", "B", "C"}] :
+                    /\ hh.ords \in IsoOrds(hh.nsb)
+                    /\ (hh.fis = 0 => hh.chi = 0)                       \* chi without fission data does not occur
+                    /\ (hh.fis = 1 /\ hh.chi = 0 => hh.fw = 1)          \* a fissile nuclide needs its own or the file-wide chi
+                    /\ (gam /\ ~Wide => hh.ng = 3)}
+IsoHdr == IsoHdrG(FALSE)
+GamHdr == IsoHdrG(TRUE)
+IsoScatFlags == <<100, 200>>      \* block types: elastic, inelastic
+IsoNuc(hh, i) == IF i = 1 THEN [fis |-> hh.fis, chi |-> hh.chi, ords |-> hh.ords] @@ IsoVariants[hh.var]
+                 ELSE [fis |-> 0, chi |-> 0, ords |-> Rep(hh.nsb, 1)] @@ IsoVariants["A"]
+IsoOptNames == <<"nalph", "np", "n2n", "nd", "nt">>
+Iso4DStr == <<"nuclideId", "libName", "isoIdent">>
+Iso4DFlt == <<"amass", "efiss", "ecapt", "temp", "sigPot", "adens">>
+Iso4DInt == <<"classif", "chiFlag", "fisFlag", "nalph", "np", "n2n", "nd", "nt", "ltot", "ltrn", "strpd">>
+Iso4DVal(nu, key) == CASE key = "chiFlag" -> nu.chi [] key = "fisFlag" -> nu.fis [] key = "ltot" -> nu.ltot [] key = "ltrn" -> nu.ltrn
+                       [] key = "strpd" -> nu.strpd [] OTHER -> IF key \in nu.opt THEN 1 ELSE 0
+IsoP(i) == "nuc:" \o ToString(i) \o ":"
+Iso4D(hh, i) ==
+    LET P == IsoP(i) IN
+    Rec("4D", [j \in 1..3 |-> FS(P \o "md:" \o Iso4DStr[j], 8)] \o [j \in 1..6 |-> FF(P \o "md:" \o Iso4DFlt[j])]
+              \o [j \in 1..11 |-> FI(P \o "md:" \o Iso4DInt[j])]
+              \o <<LI(P \o "md:scatFlag", hh.nsb), LI(P \o "md:ords", hh.nsb), LI(P \o "md:jband", hh.nsb * hh.ng), LI(P \o "md:jj", hh.nsb * hh.ng)>>)
+Iso5D(hh, i) ==
+    LET P == IsoP(i) \o "x:"  nu == IsoNuc(hh, i) IN
+    Rec("5D", <<MF(P \o "transport", <<nu.ltrn, hh.ng>>), MF(P \o "total", <<nu.ltot, hh.ng>>), MF(P \o "nGamma", <<hh.ng>>)>>
+              \o (IF nu.fis > 0 THEN <<MF(P \o "fission", <<hh.ng>>), MF(P \o "neutronsPerFission", <<hh.ng>>)>> ELSE <<>>)
+              \o (IF nu.chi = 1 THEN <<MF(P \o "chi", <<hh.ng>>)>> ELSE <<>>)
+              \o Flat([j \in 1..5 |-> IF IsoOptNames[j] \in nu.opt THEN <<MF(P \o IsoOptNames[j], <<hh.ng>>)>> ELSE <<>>])
+              \o (IF nu.strpd > 0 THEN <<MF(P \o "strpd", <<nu.strpd, hh.ng>>)>> ELSE <<>>))
+Iso7DLen(hh, nu, m) == SumSeq([G \in 1..hh.ng |-> IF G >= BlkLo(m, hh.ng, hh.nsblok) /\ G <= BlkHi(m, hh.ng, hh.nsblok)
+                                                   THEN IsoJBand(nu.band, G, hh.ng) ELSE 0])
+Iso7D(hh, i) ==
+    LET nu == IsoNuc(hh, i) IN
+    Flat([n \in 1..hh.nsb |-> IF nu.ords[n] > 0
+             THEN [m \in 1..hh.nsblok |-> Rec("7D", <<LF(IsoP(i) \o "scat:" \o ToString(n - 1), nu.ords[n] * Iso7DLen(hh, nu, m))>>)]
+             ELSE <<>>])
+IsoRecords(hh) ==
+    <<Rec("FILEID", <<FS("md:label", 24), FI("md:fileId")>>),
+      Rec("1D", <<FI("md:numGroups"), FI("derived:numNucs"), FI("md:maxUpScatterGroups"), FI("md:maxDownScatterGroups"),
+                  FI("md:maxScatteringOrder"), FI("md:fileWideChiFlag"), FI("md:maxScatteringBlocks"), FI("md:subblockingControl")>>),
+      Rec("2D", <<FS("md:libraryLabel", 96), LS("derived:nucNames", hh.nNuc, 8)>>
+                \o (IF hh.fw = 1 THEN <<MF("md:chi", <<hh.ng>>)>> ELSE <<>>)
+                \o (IF hh.gam THEN <<LF("md:gammaVelocity..NOT", hh.ng), MF("lib:gammaEnergyUpperBounds", <<hh.ng>>)>>
+                    ELSE <<MF("lib:neutronVelocity", <<hh.ng>>), MF("lib:neutronEnergyUpperBounds", <<hh.ng>>)>>)
+                \o <<FF("md:minimumNeutronEnergy"), LI("derived:loca", hh.nNuc)>>)>>
+    \o Flat([i \in 1..hh.nNuc |-> <<Iso4D(hh, i), Iso5D(hh, i)>> \o Iso7D(hh, i)])
+IsoNum7D(hh, i) == SumSeq([n \in 1..hh.nsb |-> IF IsoNuc(hh, i).ords[n] > 0 THEN hh.nsblok ELSE 0])
+IsoCount(hh) == [FILEID |-> 1, 1D |-> 1, 2D |-> 1, 4D |-> hh.nNuc, 5D |-> hh.nNuc, 7D |-> SumSeq([i \in 1..hh.nNuc |-> IsoNum7D(hh, i)])]
+\* LOCA(i): records to skip to reach nuclide i (CCCC-IV 2D record) -- reported, not part of the statement
+IsoLoca(hh) == [i \in 1..hh.nNuc |-> SumSeq([j \in 1..(i - 1) |-> 2 + IsoNum7D(hh, j)])]
+IsoNz(hh, nu) == Flat([G \in 1..hh.ng |-> [c \in 1..IsoJBand(nu.band, G, hh.ng) |->
+                        <<G - 1, G + IsoJJ(nu.band, G, hh.ng) - IsoJBand(nu.band, G, hh.ng) + c - 2>>]])     \* 0-based <<row, col>>
+NzLit(nz) == "=" \o (IF nz = <<>> THEN "" ELSE FoldLeft(LAMBDA a, x : a \o ";" \o ToString(x[1]) \o "," \o ToString(x[2]),
+                                                       ToString(nz[1][1]) \o "," \o ToString(nz[1][2]), Tail(nz)))
+IsoManifest(hh) ==
+    <<Dt("md:label", "string", <<>>, 24, "=ISOTXS"), Dt("md:fileId", "int", <<>>, 0, "i32"), Hd("md:numGroups", hh.ng),
+      Dt("md:maxUpScatterGroups", "int", <<>>, 0, "i32"), Dt("md:maxDownScatterGroups", "int", <<>>, 0, "i32"),
+      Dt("md:maxScatteringOrder", "int", <<>>, 0, "i32"), Hd("md:fileWideChiFlag", hh.fw), Hd("md:maxScatteringBlocks", hh.nsb),
+      Hd("md:subblockingControl", hh.nsblok), Dt("md:libraryLabel", "string", <<>>, 96, "str")>>
+    \o (IF hh.fw = 1 THEN <<Dt("md:chi", "float", <<hh.ng>>, 0, "real")>> ELSE <<>>)
+    \o (IF hh.gam THEN <<Dt("md:gammaVelocity..NOT", "float", <<hh.ng>>, 0, "real"), Dt("lib:gammaEnergyUpperBounds", "float", <<hh.ng>>, 0, "real")>>
+        ELSE <<Dt("lib:neutronVelocity", "float", <<hh.ng>>, 0, "real"), Dt("lib:neutronEnergyUpperBounds", "float", <<hh.ng>>, 0, "real")>>)
+    \o <<Dt("md:minimumNeutronEnergy", "float", <<>>, 0, "real")>>
+    \o Flat([i \in 1..hh.nNuc |->
+        LET P == IsoP(i)  nu == IsoNuc(hh, i) IN
+        <<Dt(P \o "md:nuclideId", "string", <<>>, 8, "nucid"), Dt(P \o "md:libName", "string", <<>>, 8, "str"), Dt(P \o "md:isoIdent", "string", <<>>, 8, "str")>>
+        \o [j \in 1..6 |-> Dt(P \o "md:" \o Iso4DFlt[j], "float", <<>>, 0, "real")]
+        \o [j \in 1..11 |-> IF Iso4DInt[j] = "classif" THEN Dt(P \o "md:classif", "int", <<>>, 0, "i32") ELSE Hd(P \o "md:" \o Iso4DInt[j], Iso4DVal(nu, Iso4DInt[j]))]
+        \o <<Dt(P \o "md:scatFlag", "int", <<hh.nsb>>, 0, Lit(SubSeq(IsoScatFlags, 1, hh.nsb))), Dt(P \o "md:ords", "int", <<hh.nsb>>, 0, Lit(nu.ords)),
+             Dt(P \o "md:jband", "int", <<hh.nsb, hh.ng>>, 0, Lit(Flat(Rep(hh.nsb, [G \in 1..hh.ng |-> IsoJBand(nu.band, G, hh.ng)])))),
+             Dt(P \o "md:jj", "int", <<hh.nsb, hh.ng>>, 0, Lit(Flat(Rep(hh.nsb, [G \in 1..hh.ng |-> IsoJJ(nu.band, G, hh.ng)])))),
+             Dt(P \o "x:transport", "float", <<hh.ng, nu.ltrn>>, 0, "real"), Dt(P \o "x:total", "float", <<hh.ng, nu.ltot>>, 0, "real"),
+             Dt(P \o "x:nGamma", "float", <<hh.ng>>, 0, "real")>>
+        \o (IF nu.fis > 0 THEN <<Dt(P \o "x:fission", "float", <<hh.ng>>, 0, "real"), Dt(P \o "x:neutronsPerFission", "float", <<hh.ng>>, 0, "real")>> ELSE <<>>)
+        \o (IF nu.chi = 1 THEN <<Dt(P \o "x:chi", "float", <<hh.ng>>, 0, "real")>> ELSE <<>>)
+        \o Flat([j \in 1..5 |-> IF IsoOptNames[j] \in nu.opt THEN <<Dt(P \o "x:" \o IsoOptNames[j], "float", <<hh.ng>>, 0, "real")>> ELSE <<>>])
+        \o (IF nu.strpd > 0 THEN <<Dt(P \o "x:strpd", "float", <<hh.ng, nu.strpd>>, 0, "real")>> ELSE <<>>)
+        \o Flat([n \in 1..hh.nsb |-> IF nu.ords[n] > 0 THEN <<Sp(P \o "scat:" \o ToString(n - 1), "sparse", <<hh.ng, hh.ng>>, IsoNz(hh, nu), NzLit(IsoNz(hh, nu)))>> ELSE <<>>])])
+IsoDerivedBytes(hh) == 4 + 8 * hh.nNuc + 4 * hh.nNuc         \* numNucs, nuclide names, LOCA
+
+(* ================================================ PMATRX ================================================ *)
+PmxHdr == {hh \in [nng : 1..2, ngg : 1..2, dose : BOOLEAN, nNuc : 1..2, nhd : BOOLEAN, gh : BOOLEAN, nact : 0..1, mso : 0..3] :
+             Wide \/ hh.nng # hh.ngg}
+PmxNuc(hh, i) == IF i = 1 THEN [nhd |-> hh.nhd, gh |-> hh.gh, nact |-> hh.nact, mso |-> hh.mso] ELSE [nhd |-> FALSE, gh |-> TRUE, nact |-> 0, mso |-> 1]
+PmxIdInts == <<"maxScatteringOrder", "maxNumberOfCompositions", "maxMaterials", "maxNumberOfRegions", "maxNumberOfCollapsingRegions", "_dummy1", "_dummy2">>
+B2I(b) == IF b THEN 1 ELSE 0
+PmxNucRecords(hh, i) ==
+    LET P == IsoP(i)  nu == PmxNuc(hh, i) IN
+    <<Rec("NUCHEAD", <<FB(P \o "md:hasNeutronHeatingAndDamage"), FI(P \o "md:maxScatteringOrder"), FB(P \o "md:hasGammaHeating"),
+                       FI(P \o "md:numberNeutronXS"), FI(P \o "md:collapsingRegionNumber")>>)>>
+    \o (IF nu.nhd THEN <<Rec("NHEAT", <<MF(P \o "a:neutronHeating", <<hh.nng>>), MF(P \o "a:neutronDamage", <<hh.nng>>)>>)>> ELSE <<>>)
+    \o [x \in 1..nu.nact |-> Rec("ACTXS", <<LF(P \o "md:activationXS", hh.nng), FI(P \o "md:activationMT"), FI(P \o "md:activationMTU")>>)]
+    \o (IF nu.gh THEN <<Rec("GHEAT", <<MF(P \o "a:gammaHeating", <<hh.ngg>>)>>)>> ELSE <<>>)
+    \o [l \in 1..nu.mso |-> Rec("PROD", <<MF(P \o "prod:" \o ToString(l), <<hh.nng, hh.ngg>>)>>)]
+PmxRecords(hh) ==
+    <<Rec("FILEID", <<FI("md:numberCollapsingSpatialRegions"), FI("md:numGammaGroups"), FI("md:numNeutronGroups"), FB("md:hasInPlateData"),
+                      FI("derived:numNucs"), FB("md:hasDoseConversionFactor")>> \o [j \in 1..7 |-> FI("md:" \o PmxIdInts[j])]),
+      Rec("GROUPS", <<MF("lib:neutronEnergyUpperBounds", <<hh.nng>>), FF("md:minimumNeutronEnergy"),
+                      MF("lib:gammaEnergyUpperBounds", <<hh.ngg>>), FF("md:minimumGammaEnergy")>>)>>
+    \o (IF hh.dose THEN <<Rec("DOSE", <<LF("lib:neutronDoseConversionFactors", hh.nng), LF("lib:gammaDoseConversionFactors", hh.ngg)>>)>> ELSE <<>>)
+    \o <<Rec("ISOS", <<LS("derived:nucNames", hh.nNuc, 8), LI("derived:thousand", hh.nNuc)>>)>>
+    \o Flat([i \in 1..hh.nNuc |-> PmxNucRecords(hh, i)])
+PmxSum(hh, F(_)) == SumSeq([i \in 1..hh.nNuc |-> F(PmxNuc(hh, i))])
+PmxCount(hh) == [FILEID |-> 1, GROUPS |-> 1, DOSE |-> B2I(hh.dose), ISOS |-> 1, NUCHEAD |-> hh.nNuc,
+                 NHEAT |-> PmxSum(hh, LAMBDA nu : B2I(nu.nhd)), ACTXS |-> PmxSum(hh, LAMBDA nu : nu.nact),
+                 GHEAT |-> PmxSum(hh, LAMBDA nu : B2I(nu.gh)), PROD |-> PmxSum(hh, LAMBDA nu : nu.mso)]
+PmxManifest(hh) ==
+    <<Dt("md:numberCollapsingSpatialRegions", "int", <<>>, 0, "i32"), Hd("md:numGammaGroups", hh.ngg), Hd("md:numNeutronGroups", hh.nng),
+      Hb("md:hasInPlateData", 0), Hb("md:hasDoseConversionFactor", B2I(hh.dose))>>
+    \o [j \in 1..7 |-> Dt("md:" \o PmxIdInts[j], "int", <<>>, 0, "i32")]
+    \o <<Dt("lib:neutronEnergyUpperBounds", "float", <<hh.nng>>, 0, "real"), Dt("md:minimumNeutronEnergy", "float", <<>>, 0, "real"),
+         Dt("lib:gammaEnergyUpperBounds", "float", <<hh.ngg>>, 0, "real"), Dt("md:minimumGammaEnergy", "float", <<>>, 0, "real")>>
+    \o (IF hh.dose THEN <<Dt("lib:neutronDoseConversionFactors", "float", <<hh.nng>>, 0, "real"), Dt("lib:gammaDoseConversionFactors", "float", <<hh.ngg>>, 0, "real")>> ELSE <<>>)
+    \o Flat([i \in 1..hh.nNuc |->
+        LET P == IsoP(i)  nu == PmxNuc(hh, i) IN
+        <<Hb(P \o "md:hasNeutronHeatingAndDamage", B2I(nu.nhd)), Hd(P \o "md:maxScatteringOrder", nu.mso), Hb(P \o "md:hasGammaHeating", B2I(nu.gh)),
+          Hd(P \o "md:numberNeutronXS", nu.nact), Dt(P \o "md:collapsingRegionNumber", "int", <<>>, 0, "i32")>>
+        \o (IF nu.nhd THEN <<Dt(P \o "a:neutronHeating", "float", <<hh.nng>>, 0, "real"), Dt(P \o "a:neutronDamage", "float", <<hh.nng>>, 0, "real")>> ELSE <<>>)
+        \o (IF nu.nact > 0 THEN <<Dt(P \o "md:activationXS", "float", <<nu.nact, hh.nng>>, 0, "real"), Dt(P \o "md:activationMT", "int", <<nu.nact>>, 0, "i32"),
+                                  Dt(P \o "md:activationMTU", "int", <<nu.nact>>, 0, "i32")>> ELSE <<>>)
+        \o (IF nu.gh THEN <<Dt(P \o "a:gammaHeating", "float", <<hh.ngg>>, 0, "real")>> ELSE <<>>)
+        \o [l \in 1..nu.mso |-> Dt(P \o "prod:" \o ToString(l), "float", <<hh.ngg, hh.nng>>, 0, "real")]])
+PmxDerivedBytes(hh) == 4 + 8 * hh.nNuc + 4 * hh.nNuc
+
+(* ================================================ DLAYXS ================================================ *)
+DlyHdr == [G : 1..2, nNuc : 1..2, NF : {1, 3}, kf : 1..2, L : {0, 8, 32}, nd2 : {0, 2}]
+DlyKfam(hh) == IF hh.nNuc = 1 THEN <<hh.kf>> ELSE <<hh.kf, 1>>
+DlyRecords(hh) ==
+    <<Rec("FILEID", <<FS("md:label", hh.L)>>),
+      Rec("1D", <<FI("md:numEnergyGroups"), FI("derived:numNucs"), FI("md:numFamilies"), FI("md:dummy")>>),
+      Rec("2D", <<LS("md:nuclideIDs", hh.nNuc, 8), MF("md:precursorDecayConstants", <<hh.NF>>), MF("md:delayEmissionSpectrum", <<hh.NF, hh.G>>),
+                  MF("lib:neutronEnergyUpperBounds", <<hh.G>>), FF("md:minEnergy"), LI("md:nkfam", hh.nNuc), LI("md:recordsToSkip", hh.nNuc),
+                  LS("md:dummy2", hh.nd2, 4)>>)>>
+    \o [i \in 1..hh.nNuc |-> Rec("3D", <<MF(IsoP(i) \o "dnpf", <<DlyKfam(hh)[i], hh.G>>), LI(IsoP(i) \o "family", 6)>>)]
+DlyCount(hh) == [FILEID |-> 1, 1D |-> 1, 2D |-> 1, 3D |-> hh.nNuc]
+DlyManifest(hh) ==
+    <<Dt("md:label", "string", <<>>, hh.L, "strfull"), Hd("md:numEnergyGroups", hh.G), Hd("md:numFamilies", hh.NF), Dt("md:dummy", "int", <<>>, 0, "i32"),
+      Dt("md:nuclideIDs", "string", <<hh.nNuc>>, 8, "mcc3id"), Dt("md:precursorDecayConstants", "float", <<hh.NF>>, 0, "real"),
+      Dt("md:delayEmissionSpectrum", "float", <<hh.G, hh.NF>>, 0, "real"), Dt("lib:neutronEnergyUpperBounds", "float", <<hh.G>>, 0, "real"),
+      Dt("md:minEnergy", "float", <<>>, 0, "real"), Dt("md:nkfam", "int", <<hh.nNuc>>, 0, Lit(DlyKfam(hh))),
+      Dt("md:recordsToSkip", "int", <<hh.nNuc>>, 0, "small"), Dt("md:dummy2", "string", <<hh.nd2>>, 4, "strfull")>>
+    \o Flat([i \in 1..hh.nNuc |-> <<Dt(IsoP(i) \o "dnpf", "float", <<DlyKfam(hh)[i], hh.G>>, 0, "real"),
+                                    Dt(IsoP(i) \o "family", "int", <<6>>, 0, Lit([k \in 1..6 |-> ((k - 1) % hh.NF) + 1]))>>])
+DlyDerivedBytes(hh) == 4
+\* the reader has no container to take lengths from; it derives them from the frame (dlayxs.py _rwFileID, _rwSpectra):
+\*   label width = byte count of the first record;  dummy2 entries = (bytes of the 2D record not yet consumed) / 4
+DlyReaderLabelWidth(hh) == RecBytes(DlyRecords(hh)[1].fs)
+DlyReaderDummy2(hh) == LET fs == DlyRecords(hh)[3].fs IN (RecBytes(fs) - RecBytes(SubSeq(fs, 1, Len(fs) - 1))) \div 4
+
+(* ================================================ COMPXS ================================================ *)
+CpxHdr == {hh \in [nComp : 1..2, ng : IF Wide THEN 1..3 ELSE {1, 3}, fw : 0..1, ndel : {0, 2}, mso : 0..1, chi : 0..2, npf : 0..1, lay : {"diag", "down", "up"}] :
+              /\ (hh.npf > 0 => hh.ndel > 0)
+              /\ (~Wide /\ hh.ng = 1 => hh.lay = "diag")}
+CpxReg(hh, i) == IF i = 1 THEN [chi |-> hh.chi, npf |-> hh.npf, lay |-> hh.lay] ELSE [chi |-> 0, npf |-> 0, lay |-> "diag"]
+CpxUp(lay, G, ng)   == IF lay = "up" /\ G < ng THEN 1 ELSE 0
+CpxDown(lay, G, ng) == CASE lay = "diag" -> 0 [] lay = "down" -> G - 1 [] lay = "up" -> IF G > 1 THEN 1 ELSE 0
+CpxBand(lay, G, ng) == CpxUp(lay, G, ng) + 1 + CpxDown(lay, G, ng)
+Cpx1DInts == <<"numComps", "numGroups", "fileWideChiFlag", "numFissComps", "maxUpScatterGroups", "maxDownScatterGroups", "numDelayedFam",
+               "maxScatteringOrder", "reservedFlag1", "reservedFlag2">>
+CpxDiff == <<"powerConvMult", "d1Multiplier", "d1Additive", "d2Multiplier", "d2Additive", "d3Multiplier", "d3Additive">>
+CpxP(i) == "reg:" \o ToString(i) \o ":"
+Cpx4D(hh, i, G) ==
+    LET P == CpxP(i)  rg == CpxReg(hh, i)  bw == CpxBand(rg.lay, G, hh.ng) IN
+    Rec("4D", <<FD(P \o "x:absorption"), FD(P \o "x:total"), FD(P \o "x:removal"), FD(P \o "x:transport")>>
+              \o (IF rg.chi > 0 THEN <<FD(P \o "x:fission"), FD(P \o "x:nuSigF"), LD(P \o "x:chi", rg.chi)>> ELSE <<>>)
+              \o <<LD(P \o "scat:0", bw)>>
+              \o [j \in 1..7 |-> FD(P \o "md:" \o CpxDiff[j])]
+              \o (IF rg.npf > 0 THEN <<LI(P \o "md:numPrecursorsProduced", rg.npf)>> ELSE <<>>)
+              \o <<FD(P \o "x:n2n")>>
+              \o [l \in 1..hh.mso |-> LD(P \o "scat:" \o ToString(l), bw)])
+CpxRecords(hh) ==
+    <<Rec("1D", [j \in 1..10 |-> FI("md:" \o Cpx1DInts[j])]),
+      Rec("2D", (IF hh.fw > 0 THEN <<MD("md:fileWideChi", <<hh.fw, hh.ng>>)>> ELSE <<>>)
+                \o <<LD("lib:neutronVelocity", hh.ng), LD("lib:neutronEnergyUpperBounds", hh.ng), FD("md:minimumNeutronEnergy")>>
+                \o (IF hh.ndel > 0 THEN <<MD("md:delayedChi", <<hh.ng, hh.ndel>>), LD("md:delayedDecayConstant", hh.ndel)>> ELSE <<>>)
+                \o <<LI("md:compFamiliesWithPrecursors", hh.nComp)>>)>>
+    \o Flat([i \in 1..hh.nComp |->
+         <<Rec("3D", <<FI(CpxP(i) \o "md:chiFlag"), LI(CpxP(i) \o "md:numUpScatterGroups", hh.ng), LI(CpxP(i) \o "md:numDownScatterGroups", hh.ng)>>
+                     \o (IF CpxReg(hh, i).npf > 0 THEN <<LI(CpxP(i) \o "md:numFamI", CpxReg(hh, i).npf)>> ELSE <<>>))>>
+         \o [G \in 1..hh.ng |-> Cpx4D(hh, i, G)]])
+    \o <<Rec("5D", <<LD("md:fissionWattSeconds", hh.nComp), LD("md:captureWattSeconds", hh.nComp)>>)>>
+CpxCount(hh) == [1D |-> 1, 2D |-> 1, 3D |-> hh.nComp, 4D |-> hh.nComp * hh.ng, 5D |-> 1]
+CpxNz(lay, ng) == Flat([G \in 1..ng |-> [r \in 1..CpxBand(lay, G, ng) |-> <<G - 1 - CpxDown(lay, G, ng) + r - 1, G - 1>>]])   \* 0-based <<row, col>>
+CpxManifest(hh) ==
+    [j \in 1..10 |-> CASE Cpx1DInts[j] = "numComps" -> Hd("md:numComps", hh.nComp) [] Cpx1DInts[j] = "numGroups" -> Hd("md:numGroups", hh.ng)
+                       [] Cpx1DInts[j] = "fileWideChiFlag" -> Hd("md:fileWideChiFlag", hh.fw) [] Cpx1DInts[j] = "numDelayedFam" -> Hd("md:numDelayedFam", hh.ndel)
+                       [] Cpx1DInts[j] = "maxScatteringOrder" -> Hd("md:maxScatteringOrder", hh.mso)
+                       [] OTHER -> Dt("md:" \o Cpx1DInts[j], "int", <<>>, 0, "i32")]
+    \o (IF hh.fw > 0 THEN <<Dt("md:fileWideChi", "double", <<hh.ng, hh.fw>>, 0, "real")>> ELSE <<>>)
+    \o <<Dt("lib:neutronVelocity", "double", <<hh.ng>>, 0, "real"), Dt("lib:neutronEnergyUpperBounds", "double", <<hh.ng>>, 0, "real"),
+         Dt("md:minimumNeutronEnergy", "double", <<>>, 0, "real")>>
+    \o (IF hh.ndel > 0 THEN <<Dt("md:delayedChi", "double", <<hh.ndel, hh.ng>>, 0, "real"), Dt("md:delayedDecayConstant", "double", <<hh.ndel>>, 0, "real")>> ELSE <<>>)
+    \o <<Dt("md:compFamiliesWithPrecursors", "int", <<hh.nComp>>, 0, Lit([i \in 1..hh.nComp |-> CpxReg(hh, i).npf]))>>
+    \o Flat([i \in 1..hh.nComp |->
+        LET P == CpxP(i)  rg == CpxReg(hh, i) IN
+        <<Hd(P \o "md:chiFlag", rg.chi),
+          Dt(P \o "md:numUpScatterGroups", "int", <<hh.ng>>, 0, Lit([G \in 1..hh.ng |-> CpxUp(rg.lay, G, hh.ng)])),
+          Dt(P \o "md:numDownScatterGroups", "int", <<hh.ng>>, 0, Lit([G \in 1..hh.ng |-> CpxDown(rg.lay, G, hh.ng)]))>>
+        \o (IF rg.npf > 0 THEN <<Dt(P \o "md:numFamI", "int", <<rg.npf>>, 0, "small"), Dt(P \o "md:numPrecursorsProduced", "int", <<hh.ng, rg.npf>>, 0, "small")>> ELSE <<>>)
+        \o <<Dt(P \o "x:absorption", "double", <<hh.ng>>, 0, "real"), Dt(P \o "x:total", "double", <<hh.ng>>, 0, "real"),
+             Dt(P \o "x:removal", "double", <<hh.ng>>, 0, "real"), Dt(P \o "x:transport", "double", <<hh.ng>>, 0, "real"),
+             Dt(P \o "x:n2n", "double", <<hh.ng>>, 0, "real")>>
+        \o (IF rg.chi > 0 THEN <<Dt(P \o "x:fission", "double", <<hh.ng>>, 0, "real"), Dt(P \o "x:nuSigF", "double", <<hh.ng>>, 0, "real"),
+                                 Dt(P \o "x:chi", "double", <<hh.ng, rg.chi>>, 0, "real")>> ELSE <<>>)
+        \o [j \in 1..7 |-> Dt(P \o "md:" \o CpxDiff[j], "double", <<hh.ng>>, 0, "real")]
+        \o [l \in 1..(hh.mso + 1) |-> Sp(P \o "scat:" \o ToString(l - 1), "sparse8", <<hh.ng, hh.ng>>, CpxNz(rg.lay, hh.ng), NzLit(CpxNz(rg.lay, hh.ng)))]])
+    \o <<Dt("md:fissionWattSeconds", "double", <<hh.nComp>>, 0, "real"), Dt("md:captureWattSeconds", "double", <<hh.nComp>>, 0, "real")>>
+
+(* ================================================ dispatch =============================================== *)
+AllFormats == {"GEODST", "DIF3D", "NHFLUX", "LABELS", "PWDINT", "RTFLUX", "RZFLUX", "FIXSRC", "ISOTXS", "GAMISO", "PMATRX", "DLAYXS", "COMPXS"}
+HdrDom(f) == CASE f = "GEODST" -> GeoHdr [] f = "DIF3D" -> DifHdr [] f = "NHFLUX" -> NhfHdr [] f = "LABELS" -> LabHdr [] f = "PWDINT" -> PwdHdr
+               [] f = "RTFLUX" -> RtfHdr [] f = "RZFLUX" -> RzfHdr [] f = "FIXSRC" -> FixHdr [] f = "ISOTXS" -> IsoHdr [] f = "GAMISO" -> GamHdr
+               [] f = "PMATRX" -> PmxHdr [] f = "DLAYXS" -> DlyHdr [] f = "COMPXS" -> CpxHdr
+Records(f, hh) == CASE f = "GEODST" -> GeoRecords(hh) [] f = "DIF3D" -> DifRecords(hh) [] f = "NHFLUX" -> NhfRecords(hh) [] f = "LABELS" -> LabRecords(hh)
+                    [] f = "PWDINT" -> PwdRecords(hh) [] f = "RTFLUX" -> RtfRecords(hh) [] f = "RZFLUX" -> RzfRecords(hh) [] f = "FIXSRC" -> FixRecords(hh)
+                    [] f \in {"ISOTXS", "GAMISO"} -> IsoRecords(hh) [] f = "PMATRX" -> PmxRecords(hh) [] f = "DLAYXS" -> DlyRecords(hh)
+                    [] f = "COMPXS" -> CpxRecords(hh)
+Count(f, hh) == CASE f = "GEODST" -> GeoCount(hh) [] f = "DIF3D" -> DifCount(hh) [] f = "NHFLUX" -> NhfCount(hh) [] f = "LABELS" -> LabCount(hh)
+                  [] f = "PWDINT" -> PwdCount(hh) [] f = "RTFLUX" -> RtfCount(hh) [] f = "RZFLUX" -> RzfCount(hh) [] f = "FIXSRC" -> FixCount(hh)
+                  [] f \in {"ISOTXS", "GAMISO"} -> IsoCount(hh) [] f = "PMATRX" -> PmxCount(hh) [] f = "DLAYXS" -> DlyCount(hh) [] f = "COMPXS" -> CpxCount(hh)
+Manifest(f, hh) == CASE f = "GEODST" -> GeoManifest(hh) [] f = "DIF3D" -> DifManifest(hh) [] f = "NHFLUX" -> NhfManifest(hh) [] f = "LABELS" -> LabManifest(hh)
+                     [] f = "PWDINT" -> PwdManifest(hh) [] f = "RTFLUX" -> RtfManifest(hh) [] f = "RZFLUX" -> RzfManifest(hh) [] f = "FIXSRC" -> FixManifest(hh)
+                     [] f \in {"ISOTXS", "GAMISO"} -> IsoManifest(hh) [] f = "PMATRX" -> PmxManifest(hh) [] f = "DLAYXS" -> DlyManifest(hh)
+                     [] f = "COMPXS" -> CpxManifest(hh)
+\* bytes the writer derives itself (counts, nuclide names, record offsets, constants) rather than taking them from a container datum
+DerivedBytes(f, hh) == CASE f \in {"ISOTXS", "GAMISO"} -> IsoDerivedBytes(hh) [] f = "PMATRX" -> PmxDerivedBytes(hh) [] f = "DLAYXS" -> DlyDerivedBytes(hh)
+                         [] f = "FIXSRC" -> FixConstBytes [] OTHER -> 0
+Encs(f) == IF f = "FIXSRC" THEN <<"bin">> ELSE <<"bin", "asc">>      \* fixsrc.py offers readBinary / writeBinary only
+
+(* ================================================ the file as a behaviour =============================== *)
+Recs == Records(fmt, h)
+Init == /\ fmt \in Fmts /\ h \in HdrDom(fmt) /\ pos = 0 /\ off = 0 /\ act = [n |-> "Init"]
+EmitRecord == LET rs == Recs IN
+              /\ pos < Len(rs)
+              /\ pos' = pos + 1
+              /\ off' = off + 4 + WRecord(rs[pos + 1].fs).numBytes + 4
+              /\ UNCHANGED <<fmt, h>> /\ act' = [n |-> "EmitRecord", tag |-> rs[pos + 1].tag]
+Next == EmitRecord
+Spec == Init /\ [][Next]_<<vars, act>>
+
+EntryBytes(e) == e.n * (CASE e.k = "sparse" -> 4 [] e.k = "sparse8" -> 8 [] OTHER -> BinSize(e.k, e.w))
+FileBytes(f, hh) == LET rs == Records(f, hh) IN SumSeq([i \in 1..Len(rs) |-> BinFrameLen(rs[i].fs)])
+FileChars(f, hh) == LET rs == Records(f, hh) IN SumSeq([i \in 1..Len(rs) |-> AscFrameLen(rs[i].fs)])
+TagCount(rs, t) == Cardinality({i \in 1..Len(rs) : rs[i].tag = t})
+
+(* ---------- laws ---------- *)
+\* every record of every file is framed by the count the record writer arrives at, and that is the closed form
+FrameLaw == pos > 0 => LET fs == Recs[pos].fs  wr == WRecord(fs) IN
+                       /\ wr.numBytes = wr.data /\ wr.data = RecBytes(fs) /\ wr.asc = RecChars(fs) /\ wr.calls = RecCalls(fs)
+OffsetLaw == LET rs == Recs IN
+             /\ off = SumSeq([i \in 1..pos |-> BinFrameLen(rs[i].fs)])
+             /\ (pos = Len(rs) => off = FileBytes(fmt, h))
+\* "every optional record the header flags announce": the constructive grammar agrees with the PRESENT-IF table
+\* (laws about the whole file are evaluated once per case, in its initial state)
+PresenceLaw == pos = 0 => LET c == Count(fmt, h)  rs == Recs IN
+               /\ \A t \in DOMAIN c : TagCount(rs, t) = c[t]
+               /\ \A i \in 1..Len(rs) : rs[i].tag \in DOMAIN c
+\* every payload byte is exactly one container datum (or a value the writer derives): nothing written twice, nothing dropped
+ConservationLaw == pos = 0 => LET m == Manifest(fmt, h)  rs == Recs IN
+                   SumSeq([i \in 1..Len(rs) |-> RecBytes(rs[i].fs)]) = SumSeq([i \in 1..Len(m) |-> EntryBytes(m[i])]) + DerivedBytes(fmt, h)
+\* reader and writer are one grammar; where the reader has to derive a length from the frame it arrives at the writer's
+ReaderWriterCoincide == pos = 0 /\ fmt = "DLAYXS" => DlyReaderLabelWidth(h) = h.L /\ DlyReaderDummy2(h) = h.nd2
+NoDuplicatePaths == pos = 0 => LET m == Manifest(fmt, h) IN Cardinality({m[i].p : i \in 1..Len(m)}) = Len(m)
+
+(* ---------- the case printed for the harness ---------- *)
+RecObs(r) == [tag |-> r.tag, bytes |-> RecBytes(r.fs), chars |-> RecChars(r.fs), calls |-> RecCalls(r.fs)]
+Case == [fmt |-> fmt, h |-> h, encs |-> Encs(fmt), recs |-> [i \in 1..Len(Recs) |-> RecObs(Recs[i])],
+         manifest |-> Manifest(fmt, h), counts |-> Count(fmt, h), binlen |-> FileBytes(fmt, h), asclen |-> FileChars(fmt, h),
+         loca |-> IF fmt \in {"ISOTXS", "GAMISO"} THEN IsoLoca(h) ELSE <<>>]
+=====================================================================================================
